@@ -50,6 +50,8 @@ REGISTRY = {
     "X03": ("checks.x03", "run"),
     "X04": ("checks.x04", "run"),
     "X05": ("checks.x05", "run"),
+    "X06": ("checks.x06", "run"),
+    "X07": ("checks.x07", "run"),
 }
 
 
